@@ -1151,4 +1151,300 @@ theorem restoreHolder_error_of_loadStore (sys : System) (fs : FS) (n : String)
       obtain ⟨e, he⟩ := hl var pop.count ((s.holder? n).getD { var := var }).mem
       rw [he]; exact ⟨e, rfl⟩
 
+/-! ## the restored simulation can be dumped again -/
+
+theorem Pop.Ok.normal_ok {pop : Pop} (hok : pop.Ok) : pop.normal.Ok := by
+  by_cases hp : pop.entity.isPerson = true
+  · refine ⟨?_, ?_, ?_⟩
+    · unfold Pop.normal; rw [if_pos hp]
+    · rw [Pop.Ok.normal_entity]; exact hok.roles_inj
+    · unfold Pop.normal; rw [if_pos hp]; intro rv h; cases h
+  · have hg : pop.entity.isPerson = false := by simpa using hp
+    obtain ⟨he, hi, hc, _, hr, _⟩ := hok.normal_fields hg
+    refine ⟨by rw [hc, hi]; exact hok.count_eq, by rw [he]; exact hok.roles_inj, ?_⟩
+    rw [hr, he]; exact hok.roles_mem
+
+theorem Holder.Inv.restored_inv {h : Holder} {c : Nat} (hinv : h.Inv c) : (h.restored c).Inv c where
+  keyOk := fun p hp => hinv.keyOk p ((hinv.restored_known p).1 hp)
+  valOk := fun p hp v hv => by
+    rw [hinv.restored_getArray] at hv
+    exact hinv.valOk p ((hinv.restored_known p).1 hp) v hv
+
+theorem Dumpable.reloaded {sys : System} {s : Sim} (hd : Dumpable sys s) :
+    Dumpable sys s.reloaded where
+  same_system := by
+    have : s.reloaded.pops.map (fun p => p.entity) = s.pops.map (fun p => p.entity) := by
+      unfold Sim.reloaded
+      simp only [List.map_map]
+      apply List.map_congr_left
+      intro pop _
+      exact Pop.Ok.normal_entity pop
+    rw [this]; exact hd.same_system
+  keys_nodup := by
+    have : s.reloaded.pops.map (fun p => p.entity.key) = s.pops.map (fun p => p.entity.key) := by
+      unfold Sim.reloaded
+      simp only [List.map_map]
+      apply List.map_congr_left
+      intro pop _
+      simp only [Function.comp, Pop.Ok.normal_entity]
+    rw [this]; exact hd.keys_nodup
+  names_nodup := by
+    have : s.reloaded.holders.map (fun h => h.var.name) = s.holders.map (fun h => h.var.name) := by
+      unfold Sim.reloaded
+      simp only [List.map_map]
+      apply List.map_congr_left
+      intro h _
+      rfl
+    rw [this]; exact hd.names_nodup
+  pop_ok := by
+    intro pop hp
+    obtain ⟨p0, hp0, he⟩ := List.mem_map.1 hp
+    rw [← he]
+    exact (hd.pop_ok p0 hp0).normal_ok
+  holder_ok := by
+    intro h' hh'
+    obtain ⟨h, hh, he⟩ := List.mem_map.1 hh'
+    obtain ⟨hne, hv, hpop, hinv⟩ := hd.holder_ok h hh
+    rw [← he]
+    refine ⟨hne, hv, ?_, ?_⟩
+    · have hp : s.reloaded.pop? h.var.entity = (s.pop? h.var.entity).map Pop.normal :=
+        pop?_map_normal s.pops h.var.entity
+      have hent : (h.restored (s.countOf h)).var.entity = h.var.entity := rfl
+      rw [hent, hp]
+      cases hq : s.pop? h.var.entity with
+      | none => rw [hq] at hpop; cases hpop
+      | some pop => rfl
+    · rw [hd.countOf_reloaded h hh]
+      exact hinv.restored_inv
+
+/-! ## foreign files in a variable directory -/
+
+theorem mapE_congr {α β : Type} (f g : α → Except String β) (l : List α)
+    (h : ∀ x ∈ l, f x = g x) : mapE f l = mapE g l := by
+  induction l with
+  | nil => rfl
+  | cons a r ih =>
+    unfold mapE
+    rw [h a List.mem_cons_self, ih (fun x hx => h x (List.mem_cons_of_mem _ hx))]
+
+theorem mapE_append_ok {α β : Type} (f : α → Except String β) (g : α → β) (a b : List α)
+    (hb : ∀ x ∈ b, f x = .ok (g x)) :
+    mapE f (a ++ b) = match mapE f a with
+      | .error e => .error e
+      | .ok as => .ok (as ++ b.map g) := by
+  induction a with
+  | nil =>
+    rw [List.nil_append, mapE_ok_map f g b hb]
+    rfl
+  | cons x r ih =>
+    rw [List.cons_append]
+    unfold mapE
+    cases f x with
+    | error e => rfl
+    | ok y =>
+      simp only
+      rw [ih]
+      cases mapE f r with
+      | error e => rfl
+      | ok ys => rfl
+
+section AList3
+variable {κ α : Type} [DecidableEq κ]
+
+theorem alookup_append_of_not_mem (a b : List (κ × α)) (k : κ) (h : k ∉ keys b) :
+    alookup k (a ++ b) = alookup k a := by
+  induction a with
+  | nil => rw [List.nil_append]; exact (alookup_eq_none_iff b k).2 h
+  | cons e r ih =>
+    rw [List.cons_append]
+    unfold alookup
+    rw [ih]
+
+theorem mem_upsert (m : List (κ × α)) (k : κ) (v : α) (x : κ × α) (h : x ∈ upsert m k v) :
+    x = (k, v) ∨ x ∈ m := by
+  induction m with
+  | nil => simp only [upsert, List.mem_singleton] at h; exact Or.inl h
+  | cons e r ih =>
+    unfold upsert at h
+    by_cases he : e.1 = k
+    · rw [if_pos he] at h
+      rcases List.mem_cons.1 h with h | h
+      · exact Or.inl h
+      · exact Or.inr (List.mem_cons_of_mem _ h)
+    · rw [if_neg he] at h
+      rcases List.mem_cons.1 h with h | h
+      · exact Or.inr (by rw [h]; exact List.mem_cons_self)
+      · rcases ih h with h | h
+        · exact Or.inl h
+        · exact Or.inr (List.mem_cons_of_mem _ h)
+
+theorem mem_upsertAll (m l : List (κ × α)) (x : κ × α) (h : x ∈ upsertAll m l) :
+    x ∈ m ∨ x ∈ l := by
+  induction l generalizing m with
+  | nil => exact Or.inl h
+  | cons a r ih =>
+    have e : upsertAll m (a :: r) = upsertAll (upsert m a.1 a.2) r := rfl
+    rw [e] at h
+    rcases ih _ h with h | h
+    · rcases mem_upsert m a.1 a.2 x h with h | h
+      · exact Or.inr (by rw [h]; exact List.mem_cons_self)
+      · exact Or.inl h
+    · exact Or.inr (List.mem_cons_of_mem _ h)
+
+end AList3
+
+theorem parseName_some (f : List Char) (pf : Period × List Char)
+    (h : parseName f = .ok (some pf)) : pf.2 = f ∧ ∃ core, stripNpy f = some core := by
+  unfold parseName at h
+  cases hs : stripNpy f with
+  | none => rw [hs] at h; simp only at h; injection h with h; cases h
+  | some core =>
+    rw [hs] at h
+    simp only at h
+    cases hp : parsePeriod core with
+    | error e => rw [hp] at h; cases h
+    | ok p =>
+      rw [hp] at h
+      injection h with h
+      injection h with h
+      rw [← h]
+      exact ⟨rfl, core, rfl⟩
+
+/-- every file `OnDiskStorage.restore` registers is a `*.npy` file of the directory -/
+theorem parseDir_values (dir : List (List Char × Arr)) (files : List (Period × List Char))
+    (h : parseDir dir = .ok files) (q : Period) (f : List Char) (hm : (q, f) ∈ files) :
+    ∃ core, stripNpy f = some core := by
+  unfold parseDir at h
+  cases he : mapE parseName (keys dir) with
+  | error e => rw [he] at h; cases h
+  | ok es =>
+    rw [he] at h
+    injection h with h
+    rw [← h] at hm
+    rcases mem_upsertAll _ _ _ hm with hm | hm
+    · cases hm
+    · obtain ⟨o, ho, hid⟩ := List.mem_filterMap.1 hm
+      simp only [id] at hid
+      subst hid
+      have := mapE_forall parseName
+        (fun b => ∀ pf, b = some pf → ∃ core, stripNpy pf.2 = some core) (keys dir) es he
+        (fun a b _ hab pf hb => by
+          rw [hb] at hab
+          obtain ⟨h1, core, h2⟩ := parseName_some a pf hab
+          exact ⟨core, by rw [h1]; exact h2⟩)
+        (some (q, f)) ho (q, f) rfl
+      exact this
+
+theorem parseDir_append (dir ex : List (List Char × Arr))
+    (hex : ∀ e ∈ ex, stripNpy e.1 = none) : parseDir (dir ++ ex) = parseDir dir := by
+  unfold parseDir
+  rw [keys_append, mapE_append_ok parseName (fun _ => none) (keys dir) (keys ex)]
+  · cases mapE parseName (keys dir) with
+    | error e => rfl
+    | ok es =>
+      simp only
+      have : List.filterMap id (es ++ List.map (fun _ => (none : Option (Period × List Char))) (keys ex))
+          = List.filterMap id es := by
+        rw [List.filterMap_append]
+        have h0 : ∀ l : List (List Char),
+            List.filterMap id (l.map (fun _ => (none : Option (Period × List Char)))) = [] := by
+          intro l
+          induction l with
+          | nil => rfl
+          | cons a r ih => simp only [List.map_cons, List.filterMap_cons, id, ih]
+        rw [h0, List.append_nil]
+      rw [this]
+  · intro x hx
+    obtain ⟨e, he, hxe⟩ := List.mem_map.1 hx
+    unfold parseName
+    rw [← hxe, hex e he]
+
+/-- Files and sub-directories whose name does not end with `.npy`, added to a variable's
+    directory, change nothing of what `_restore_holder` loads. -/
+theorem loadStore_append (var : VarDecl) (c : Nat) (dir ex : List (List Char × Arr)) (mem : Store)
+    (hex : ∀ e ∈ ex, stripNpy e.1 = none) :
+    loadStore var c (dir ++ ex) mem = loadStore var c dir mem := by
+  unfold loadStore
+  rw [parseDir_append dir ex hex]
+  cases hp : parseDir dir with
+  | error e => rfl
+  | ok files =>
+    simp only
+    rw [mapE_congr (loadOne var c (dir ++ ex) files) (loadOne var c dir files)]
+    intro p hp'
+    unfold loadOne
+    cases hl : alookup (var.key p) files with
+    | none => rfl
+    | some f =>
+      simp only
+      have hm := mem_of_alookup _ _ _ hl
+      obtain ⟨core, hcore⟩ := parseDir_values dir files hp _ f hm
+      have hnot : f ∉ keys ex := by
+        intro hf
+        obtain ⟨e, he, hfe⟩ := List.mem_map.1 hf
+        have := hex e he
+        rw [hfe, hcore] at this
+        cases this
+      rw [alookup_append_of_not_mem dir ex f hnot]
+
+/-- `extras n` put into the directory of every variable `n` -/
+def addExtras (extras : String → List (List Char × Arr)) (fs : FS) : FS :=
+  { fs with vars := fs.vars.map (fun nd => (nd.1, nd.2 ++ extras nd.1)) }
+
+theorem alookup_addExtras (extras : String → List (List Char × Arr))
+    (vars : List (String × List (List Char × Arr))) (n : String) :
+    alookup n (vars.map (fun nd => (nd.1, nd.2 ++ extras nd.1)))
+      = (alookup n vars).map (fun d => d ++ extras n) := by
+  induction vars with
+  | nil => rfl
+  | cons e r ih =>
+    simp only [List.map_cons, alookup]
+    by_cases h : e.1 = n
+    · simp only [h, if_true, Option.map_some]
+    · simp only [h, if_false]
+      exact ih
+
+theorem restore_addExtras (sys : System) (fs : FS) (extras : String → List (List Char × Arr))
+    (hex : ∀ n, ∀ e ∈ extras n, stripNpy e.1 = none) :
+    restore sys (addExtras extras fs) = restore sys fs := by
+  have hH : restoreHolder sys (addExtras extras fs) = restoreHolder sys fs := by
+    funext s n
+    unfold restoreHolder
+    cases sys.var? n with
+    | none => rfl
+    | some var =>
+      simp only
+      cases s.pop? var.entity with
+      | none => rfl
+      | some pop =>
+        simp only
+        have : (alookup n (addExtras extras fs).vars).getD []
+            = (alookup n fs.vars).getD [] ++ (if (alookup n fs.vars).isSome then extras n else []) := by
+          unfold addExtras
+          simp only
+          rw [alookup_addExtras]
+          cases alookup n fs.vars with
+          | none => rfl
+          | some d => rfl
+        rw [this]
+        cases hd : alookup n fs.vars with
+        | none => simp only [Option.isSome_none, Bool.false_eq_true, if_false, List.append_nil]
+        | some d =>
+          simp only [Option.isSome_some, if_true, Option.getD_some]
+          rw [loadStore_append var pop.count d (extras n) _ (hex n)]
+  have hE : ∀ e, restoreEntity (addExtras extras fs) e = restoreEntity fs e := fun e => rfl
+  have hK : keys (addExtras extras fs).vars = keys fs.vars := by
+    unfold addExtras keys
+    simp only [List.map_map]
+    apply List.map_congr_left
+    intro x _
+    rfl
+  unfold restore
+  rw [hH, hK]
+  have : restoreEntity (addExtras extras fs) = restoreEntity fs := funext hE
+  rw [this]
+
+theorem loadStore_nil (var : VarDecl) (c : Nat) (mem : Store) : loadStore var c [] mem = .ok mem :=
+  rfl
+
 end OFCore.Dump
